@@ -163,6 +163,8 @@ def _build_pair(case, ratesB, start, end, factors=(1.0, 1.0)):
     ec, em = numpy.asarray(case["ev_cell"], dtype=int), numpy.asarray(case["ev_mag"], dtype=int)
     if order is not None:
         ec, em = ec[order], em[order]
+    if case.get("history") == "inplace-reordered" and ec.size >= 2:
+        ec, em = ec[::-1], em[::-1]          # gridcases.build reversed the stored event array in place
     cat._verif_cells = (ec, em)
     return foreA, foreB, cat, w
 
